@@ -845,3 +845,84 @@ def _named_conditions(func):
         visit_Assert = _test
         visit_IfExp = _test
     return T().visit(func)
+
+
+def expand_ref_locals(func):
+    """copy of `func` in which locals bound exactly once to a *reference
+    expression* (name / attribute / subscript chain with name or constant
+    indices), also position-wise through tuple unpacking of such an
+    expression, are replaced by that expression.  Opt-in: only sound for
+    rules that do not depend on the moment the reference is read."""
+    new = _cp(func)
+
+    def is_ref(e):
+        if isinstance(e, ast.Name):
+            return True
+        if isinstance(e, ast.Attribute):
+            return is_ref(e.value)
+        if isinstance(e, ast.Subscript):
+            return is_ref(e.value) and isinstance(
+                e.slice, (ast.Name, ast.Constant))
+        return False
+    cnt = {}
+    for n in walk(new):
+        if isinstance(n, ast.Assign):
+            for t in n.targets:
+                for nm in names_in(t):
+                    cnt[nm] = cnt.get(nm, 0) + 1
+        elif isinstance(n, (ast.AugAssign, ast.AnnAssign, ast.For,
+                            ast.NamedExpr, ast.comprehension)):
+            for nm in names_in(n.target):
+                cnt[nm] = cnt.get(nm, 0) + 2
+        elif isinstance(n, ast.With):
+            for it in n.items:
+                if it.optional_vars is not None:
+                    for nm in names_in(it.optional_vars):
+                        cnt[nm] = cnt.get(nm, 0) + 2
+    for a in new.args.args + new.args.kwonlyargs + new.args.posonlyargs:
+        cnt[a.arg] = cnt.get(a.arg, 0) + 2
+    mapping = {}
+    drop = []
+    for n in walk(new):
+        if not (isinstance(n, ast.Assign) and len(n.targets) == 1
+                and is_ref(n.value) and not isinstance(n.value, ast.Name)):
+            continue
+        t = n.targets[0]
+        if isinstance(t, ast.Name) and cnt.get(t.id) == 1:
+            mapping[t.id] = n.value
+            drop.append(n)
+        elif isinstance(t, ast.Tuple) and all(
+                isinstance(e, ast.Name) and cnt.get(e.id) == 1
+                for e in t.elts):
+            for i, e in enumerate(t.elts):
+                mapping[e.id] = _sub(_cp(n.value), ast.Constant(value=i))
+            drop.append(n)
+    if not mapping:
+        link(new)
+        new.parent = getattr(func, "parent", None)
+        return new
+    for _ in range(3):
+        mapping = {k: _Subst({a: b for a, b in mapping.items() if a != k})
+                   .visit(_cp(v)) for k, v in mapping.items()}
+
+    class T(ast.NodeTransformer):
+        def visit_FunctionDef(self, node):
+            if node is new:
+                self.generic_visit(node)
+            return node
+
+        def visit_Assign(self, node):
+            if any(node is d for d in drop):
+                return ast.copy_location(ast.Pass(), node)
+            self.generic_visit(node)
+            return node
+
+        def visit_Name(self, node):
+            if isinstance(node.ctx, ast.Load) and node.id in mapping:
+                return ast.copy_location(_cp(mapping[node.id]), node)
+            return node
+    new = T().visit(new)
+    ast.fix_missing_locations(new)
+    link(new)
+    new.parent = getattr(func, "parent", None)
+    return new
